@@ -115,11 +115,36 @@ def c08_runs(tier):
     return runs
 
 
+def c04_runs(tier):
+    runs = [("main", ["--mode", "grid", "--mtu", "1500"])]
+    if tier == "thorough":
+        runs.append(("main", ["--mode", "grid", "--mtu", "576"]))
+        for i in range(16):
+            runs.append(("main", ["--mode", "full", "--a", str(i * 16), "--b", str((i + 1) * 16)]))
+            runs.append(("linux", ["--mode", "linux", "--a", str(i * 16), "--b", str((i + 1) * 16)]))
+    else:
+        # quick: the low and the high end of each 32-bit domain (values 0x00xxxxxx and 0xFFxxxxxx)
+        runs += [("main", ["--mode", "full", "--a", "0", "--b", "1"]), ("main", ["--mode", "full", "--a", "255", "--b", "256"])]
+        runs += [("linux", ["--mode", "linux", "--a", "0", "--b", "1"]), ("linux", ["--mode", "linux", "--a", "255", "--b", "256"])]
+    return runs
+
+
 EMIT = {"main": {"sources": MC + ["checks/emit.c"], "modes": ["c06", "c10"]}}
 OBS = {"main": {"sources": MC + ["checks/obs.c"], "modes": ["c07", "c19"]}}
 PROTO = {"main": {"sources": MC + ["checks/proto.c"], "modes": ["c02", "c03", "c09"]}}
 
 PROPS = {
+    "C04": {
+        "engine": "sweep",
+        "builds": {"main": {"sources": MC + ["checks/c04.c"], "modes": ["grid", "full"]},
+                   "linux": {"sources": ["mc/report.c", "checks/c04_linux.c"], "core": [], "repo_extra": ["os/linux/lltd_port.c"],
+                             "repo_extra_flags": ["-I", "/repo/os/linux", "-DLINUX"], "defs": ["-DVF_LINUX_MAIN_H=\"/repo/os/linux/daemon/linux-main.h\""], "modes": ["linux"]}},
+        "runs": c04_runs, "level": "exploration",
+        "technique": "exhaustive input enumeration: every attribute domain swept through the real Hello path and decoded independently (2^16 domains fully, per-byte for MAC/BSSID/IPv6, all 2^32 values of ifType/IPv4/speed through the TLV writers in the thorough tier); the Linux port layer linked alone and swept over all 2^32 values of LinkSpeed / MediumType / flags",
+        "rule": "one evaluation = one Hello built by the real code for an attribute tuple (or one TLV-writer / port-getter call); distinct_nontrivial counts distinct encoded property lists on a subsample",
+        "assumptions": ["for a failing getter only 'property absent or zero default' is demanded", "IPv6 and 48-bit addresses are covered per byte position, not as full 2^128 / 2^48 domains",
+                        "perf-counter frequency and QoS characteristics: checked for presence, size, plausibility (big-endian) and constancy"],
+    },
     "C08": {
         "engine": "sweep",
         "builds": {"main": {"sources": MC + ["checks/c08.c"], "modes": ["grid", "full"]}}, "runs": c08_runs, "level": "exploration",
